@@ -692,7 +692,7 @@ pub fn case_strategy() -> impl Strategy<Value = Case> {
 }
 
 pub fn case_strategy_with(long_weight: f64) -> impl Strategy<Value = Case> {
-    (crate::props::c02::db_strategy_with(long_weight), prop::collection::vec(corrupt_strategy(), 0..4)).prop_map(|(mut db, corrupt)| {
+    (crate::props::c02::db_strategy_with(long_weight, true), prop::collection::vec(corrupt_strategy(), 0..4)).prop_map(|(mut db, corrupt)| {
         // keep the files small: the battery does the heavy lifting
         db.pool.leading_holes = 0;
         for t in db.tables.iter_mut() {
